@@ -599,6 +599,37 @@ def stripe_proposals(V, modes, cascaded):
     return cl
 
 
+def cascadable(V):
+    """which operators may be split into stripes inside a cascade: the REAL CascadeBuilder._is_cascadable on a stand-in scheduler operation whose
+    kind, padding mode, read offsets, stripe and OFM heights are symbolic.  The per-stripe lemmas above are proved for operators the cascade builder
+    lets through and ASSUME what it rules out: a transpose convolution (x2 TRANSPOSE resampling: odd stripe boundaries cannot be expressed by box
+    and pads) and a tile-padded depthwise convolution are never cascaded, and an elementwise operator only when elementwise_cascadable agrees."""
+    import ethosu.vela.cascade_builder as cb
+    from ethosu.vela.operation import Op, Padding
+
+    kinds = {"conv": (Op.Conv2DBias, Op.Conv2DBias), "depthwise": (Op.DepthwiseConv2DBias, Op.DepthwiseConv2DBias), "pool": (Op.MaxPool, Op.MaxPool),
+             "add": (Op.Add, Op.Add),
+             # the graph optimiser has renamed the operator by the time the scheduler sees it; SchedulerOperation.op_type is parent_op.type
+             "transpose_conv": (Op.Conv2DBackpropInputSwitchedBias, Op.Conv2DBackpropInputSwitchedBias)}
+    kind = V.choice("kind", sorted(kinds))
+    pad = V.choice("padding", [None, Padding.SAME, Padding.VALID, Padding.TILE])
+    ro0, ro1 = bool(V.bool("has_read_offset0")), bool(V.bool("has_read_offset1"))
+    sh, oh = V.int("stripe_height", 1, 4096), V.int("ofm_height", 1, 4096)
+    ew_ok = V.bool("elementwise_cascadable")
+    ptype, stype = kinds[kind]
+    sop = _Obj(op_type=stype, ofm=_Obj(shape=_Obj(height=oh)), parent_op=_Obj(type=ptype, read_offsets=[object() if ro0 else None, object() if ro1 else None],
+                                                                               attrs={} if pad is None else {"padding": pad}))
+    me = _Obj(elementwise_cascadable=lambda so: ew_ok)
+    got = cb.CascadeBuilder._is_cascadable(me, sop, _Obj(stripe=_Obj(height=sh)))
+    if not got:
+        return None
+    return [("a transpose convolution is never split into cascade stripes", kind != "transpose_conv"),
+            ("a tile-padded operator is never split into cascade stripes", pad is not Padding.TILE),
+            ("an operator reading a slice (read offsets) is not cascaded", not ro0 and not ro1),
+            ("only operators with more than one stripe count as cascaded", L(sh) < L(oh)),
+            ("elementwise_cascadable is respected", B(ew_ok))]
+
+
 def rolling_dims(V, **params):
     """rolling buffers are tall, wide and deep enough: harness/c02.py rolling_dims (the real rolling_buffer_shape on symbolic stripe shapes)"""
     from harness import c02
@@ -606,7 +637,7 @@ def rolling_dims(V, **params):
     return c02.rolling_dims(V, **params)
 
 
-FUNCS = {"rolling_dims": rolling_dims, "tconv_pads": tconv_pads, "stripe_proposals": stripe_proposals, "rows": rows, "cols": cols, "rows_upscaled": rows_upscaled, "area": area, "cascade": cascade}
+FUNCS = {"cascadable": cascadable, "rolling_dims": rolling_dims, "tconv_pads": tconv_pads, "stripe_proposals": stripe_proposals, "rows": rows, "cols": cols, "rows_upscaled": rows_upscaled, "area": area, "cascade": cascade}
 
 
 
@@ -630,6 +661,7 @@ def instances(tier, seed):
                 out.append(dict(key="rows/%s/s%d/%s/split" % (mode, stride, "striped" if striped else "full"), fn="rows",
                                 params=dict(stride=stride, mode=mode, striped=striped, hmax=hmax, kmax=kmax, split=1)))
     out.append(dict(key="rolling_dims", fn="rolling_dims", params={}))
+    out.append(dict(key="cascadable", fn="cascadable", params={}))
     for sx, sy in ((1, 1), (2, 2), (2, 1)):
         for padding in ("SAME", "VALID"):
             out.append(dict(key="tconv_pads/%dx%d/%s" % (sx, sy, padding), fn="tconv_pads", params=dict(sx=sx, sy=sy, padding=padding)))
